@@ -41,7 +41,7 @@ assert sh("git -C /repo status --porcelain").stdout.strip() == "", "/repo not cl
 ap = sh(f"git -C /repo apply {wt}/patch.diff")
 assert ap.returncode == 0, ap.stderr
 try:
-    out = sh(f"cd /verif && {PY} -m hsa check all", timeout=600).stdout
+    out = sh(f"cd /verif && HSA_NO_CANARY=1 {PY} -m hsa check all", timeout=600).stdout
 finally:
     sh("git -C /repo checkout -- .")
 sh("cd /verif && git checkout -- evidence 2>/dev/null; rm -f /verif/evidence/*.findings.json")
